@@ -18,7 +18,7 @@ pub fn prop() -> Prop {
 fn spec() -> Spec {
     Spec {
         kinds: vec![Kind { name: "ik_sound", quick: 800_000, thorough: 20_000_000, serial: false }, Kind { name: "shared_history", quick: 40_000, thorough: 1_000_000, serial: false }],
-        rule: "each case = generated robot (all classes incl. degenerate, 64 sign patterns, offsets, dof 5/6) x pose (reachable / random SE(3) / reach boundary / wrist centre on axis 1 / wrist singular / hostile NaN-inf-nonunit) x previous (generating, shifted by turns, uniform, far outside, sentinel, non-finite) ; all four inverse entry points are called and EVERY returned vector is pushed through the reference chain; non-trivial = a call returned >= 1 vector; distinct = hash(robot, pose, previous, entry point)",
+        rule: "each case = generated robot (all classes incl. degenerate, 64 sign patterns, offsets, dof 5/6) x pose (reachable / random SE(3) / reach boundary / wrist centre on axis 1 / wrist singular / hostile NaN-inf-nonunit) x previous (generating, shifted by turns, uniform, far outside, sentinel, non-finite) ; all four inverse entry points are called and EVERY returned vector is pushed through the reference chain; non-trivial = a call returned >= 1 vector; distinct = hash(robot, pose, previous, entry point) Workload additions (rounds 4-6 of seeded changes): solvers built through new or new_with_constraints with limits that exclude nothing; dof-5 robots with a blocked or an unblocked sixth sign; previous classes generating+1e-9..1e-4 noise and generating-with-exact-zeros; kind shared_history = 2-4 robots sharing link lengths (other signs / offsets / c4) asked bit-identical poses and previous vectors in interleaved order on one thread.",
         assumptions: vec![
             "stated accuracy 1e-6 m / 1e-6 rad plus slack 1e-9 + 1e-12*reach for the difference between the library FK and the reference chain",
             "for hostile poses (non-finite, non-unit quaternion) only no-panic and finiteness are required: there is no SE(3) element to reproduce",
@@ -42,7 +42,8 @@ fn run_case(kind: &str, idx: u64, rng: &mut Rng, mon: &mut Mon, _tier: Tier) {
     let gp = gen_pose(rng, &rp, pclass);
     let (prev, prev_class) = gen_prev(rng, gp.q.as_ref(), rng.clone().usize(8));
     let _ = rng.next_u64();
-    let j6 = *rng.pick(&[0.0, PI, -PI, 1.0, -2.5, 1e3]);
+    // (one case in thirty hands a non-finite J6 to inverse_5dof: nothing non-finite may come back)
+    let j6 = if rng.usize(30) == 0 { *rng.pick(&[f64::NAN, f64::INFINITY, f64::NEG_INFINITY]) } else { *rng.pick(&[0.0, PI, -PI, 1.0, -2.5, 1e3]) };
     mon.count(&format!("pose_class.{}", gp.class));
     mon.count(&format!("prev_class.{}", prev_class));
     mon.count(&format!("robot_class.{}", robot.class));
